@@ -550,3 +550,27 @@ Theorem C03_closest_multiple_float53_agrees_small :
   /\ float53_agrees_on (zrange (2 ^ 53 - 40) 41 ++ zrange (- (2 ^ 53)) 41) [1; 3; 10; 1048576] = true.
 Proof. split; [exact float53_agrees_small_grid | exact float53_agrees_below_2_53]. Qed.
 Print Assumptions C03_closest_multiple_float53_agrees_small.
+
+(* ---- an "Unspecified HTTP method" case (labelled negative) uses a method that the RESOLVED path item does not document,
+   whether the path item is written in place or shared through `$ref`; and every undocumented method of the universe gets
+   such a case ---- *)
+Theorem C03_unspecified_method_case_is_undocumented : forall T p c,
+  In c (method_cases T (unspecified_methods p)) ->
+  exists m, c_kind c = KMethod m /\ c_mode c = Neg /\ In m all_methods /\ ~ In m (resolved_methods p).
+Proof. exact unspecified_method_case_undocumented. Qed.
+Print Assumptions C03_unspecified_method_case_is_undocumented.
+
+Theorem C03_unspecified_method_cases_complete : forall T p m,
+  In m all_methods -> ~ In m (resolved_methods p) ->
+  In (mk_case (KMethod m) Neg (unmodified T)) (method_cases T (unspecified_methods p)).
+Proof. exact unspecified_method_case_complete. Qed.
+Print Assumptions C03_unspecified_method_cases_complete.
+
+(* sentinel: the documented set read off the RAW path item (whose only key is `$ref` when the item is shared): GET is
+   documented and still counted as unspecified; on a path item written in place the two agree *)
+Theorem C03_unspecified_method_raw_keys_refuted :
+  In 1%N (resolved_methods (PRef [1; 5; 0]%N)) /\ In 1%N (unspecified_methods_raw (PRef [1; 5; 0]%N))
+  /\ unspecified_methods (PRef [1; 5; 0]%N) = [2; 3; 4; 6]%N
+  /\ unspecified_methods_raw (PInline [1; 5; 0]%N) = unspecified_methods (PInline [1; 5; 0]%N).
+Proof. exact unspecified_method_raw_refuted. Qed.
+Print Assumptions C03_unspecified_method_raw_keys_refuted.
